@@ -43,6 +43,8 @@ class Obligation:
     symbolic: str = ""
     # extra z3 queries etc. are handled by `direct` obligations
     direct: Optional[Callable[[str], Dict[str, Any]]] = None
+    # called once per worker before any tracing: prepare(tier, part) (parse/compile programs, build tables)
+    prepare: Optional[Callable[[str, Dict[str, Any]], None]] = None
 
     def partitions(self, tier: str) -> List[Dict[str, Any]]:
         if tier in self.parts:
@@ -59,3 +61,21 @@ class Obligation:
 
 def violation_kind(v: str) -> str:
     return v.split(":", 1)[0].strip()
+
+
+def _tracing() -> bool:
+    try:
+        from crosshair.tracers import is_tracing
+
+        return bool(is_tracing())
+    except Exception:  # noqa: BLE001
+        return False
+
+
+def viol(kind: str, details: Callable[[], str]) -> str:
+    """Violation description.  Under symbolic execution only the kind tag is
+    produced (rendering symbolic values into text forks the path needlessly);
+    the plain-Python replay renders the full text."""
+    if _tracing():
+        return kind + ": (details rendered at replay)"
+    return f"{kind}: {details()}"
